@@ -195,17 +195,11 @@ def z3_to_py(v):
 
 # ------------------------------------------------------------------------- solving one VC ----
 def solve_vc(pc, formula, timeout_ms, symbols):
-    """returns (status, model_dict|None, seconds, backend) ; status in unsat/sat/unknown"""
-    s = z3.Solver()
-    s.set("timeout", timeout_ms)
-    s.add(*pc)
-    s.add(z3.Not(formula))
+    """returns (status, model_dict|None, seconds, backend) ; status in unsat/sat/unknown.
+    Portfolio: z3 default -> z3 `qfnia` tactic (nonlinear integer VCs) -> cvc5; `unknown` from all = undecided."""
     t0 = time.time()
-    r = s.check()
-    dt = time.time() - t0
-    if r == z3.unsat:
-        return "unsat", None, dt, "z3"
-    if r == z3.sat:
+
+    def model_of(s):
         m = s.model()
         md = {}
         for n, t in symbols.items():
@@ -213,12 +207,37 @@ def solve_vc(pc, formula, timeout_ms, symbols):
                 md[n] = model_value(m, t)
             except Exception as e:  # pragma: no cover
                 md[n] = f"<{e}>"
-        return "sat", md, dt, "z3"
-    # unknown: let cvc5 try
-    st, dt2 = cvc5_check(s, timeout_ms)
+        return md
+
+    s = z3.Solver()
+    s.set("timeout", timeout_ms)
+    s.add(*pc)
+    s.add(z3.Not(formula))
+    r = s.check()
+    if r == z3.unsat:
+        return "unsat", None, time.time() - t0, "z3"
+    if r == z3.sat:
+        return "sat", model_of(s), time.time() - t0, "z3"
+    try:
+        s2 = z3.Tactic("qfnia").solver()
+        s2.set("timeout", timeout_ms)
+        s2.add(*pc)
+        s2.add(z3.Not(formula))
+        r2 = s2.check()
+        if r2 == z3.unsat:
+            return "unsat", None, time.time() - t0, "z3-qfnia"
+        if r2 == z3.sat:
+            # confirm the model against the original formula before trusting it
+            m = s2.model()
+            ok = all(z3.is_true(m.eval(f, model_completion=True)) for f in pc) and z3.is_false(m.eval(formula, model_completion=True))
+            if ok:
+                return "sat", model_of(s2), time.time() - t0, "z3-qfnia"
+    except z3.Z3Exception:
+        pass
+    st, _ = cvc5_check(s, timeout_ms)
     if st == "unsat":
-        return "unsat", None, dt + dt2, "cvc5"
-    return "unknown", None, dt + dt2, "z3+cvc5"
+        return "unsat", None, time.time() - t0, "cvc5"
+    return "unknown", None, time.time() - t0, "z3+qfnia+cvc5"
 
 
 def cvc5_check(solver, timeout_ms):
